@@ -1,0 +1,8 @@
+//go:build !verif
+
+package evaluator
+
+import "github.com/Syuparn/pangaea/object"
+
+// verifTick is a no-op unless built with the `verif` tag (see verif_tick_on.go).
+func verifTick() *object.PanErr { return nil }
